@@ -8,7 +8,8 @@ CRATE = "cw4_stake"
 RULES = {
     "R10.1": "weight is the exact quotient: the weight written to MEMBERS is (new stake / CONFIG.tokens_per_weight) converted "
              "losslessly (no `as` narrowing; a checked conversion that fails the call is fine); membership is removed / absent "
-             "exactly on paths with new stake < CONFIG.min_bond; instantiate stores min_bond = max(msg.min_bond, 1)",
+             "exactly on paths with new stake < CONFIG.min_bond; instantiate stores min_bond = max(msg.min_bond, 1) and the divisor, "
+             "delay and token exactly as the message configured them",
     "R10.2": "stake deltas: Bond raises STAKE[staker] by exactly the accepted payment - native: the single attached coin whose "
              "denom equals the configured one; cw20: wrapper.amount on a path with info.sender == configured token, credited "
              "to the validated wrapper.sender; mixed kinds have no Ok-path. Unbond lowers STAKE[info.sender] by exactly the "
@@ -57,6 +58,12 @@ def run(ctx):
                         ctx.ob("R10.1", "instantiate/min_bond >= 1", good, sites=[e.site],
                                detail="CONFIG.min_bond is %s, not max(msg.min_bond, 1): a zero stake could be a member" % show(mb)[:120],
                                sample={"min_bond": show(mb)[:120]})
+                        # the configured divisor, delay and token reach storage as given: a narrowed / rescaled copy makes the
+                        # weight follow a different rule than the one the instantiator configured
+                        for f in ("tokens_per_weight", "unbonding_period", "denom"):
+                            got = field_of(e.value, f)
+                            ctx.ob("R10.1", "instantiate/%s stored as configured" % f, got == ("field", ("param", "msg"), f), sites=[e.site],
+                                   detail="CONFIG.%s is stored as %s, not msg.%s" % (f, show(got)[:140], f), sample={f: show(got)[:120]})
                     ctx.ob("R10.6", "instantiate writes no stake", not sw and not cl, trivial=True)
                     continue
                 if variant not in ("Bond", "Receive", "Unbond", "Claim"):
@@ -245,7 +252,7 @@ def check_claim(ctx, p, key, sw, cl, cfg, CLAIMS):
             f = dict(inner[3])
             if kind == ["Native"] and inner[2] == "Send":
                 amt = f.get("amount")
-                good = f.get("to_address") == SENDER and amt == ("call", "cosmwasm_std::coins", (release, ("vfield", ("field", cfg, "denom"), "Native", "0")))
+                good = f.get("to_address") == SENDER and amt == ("list", (("struct", "cosmwasm_std::coin::Coin", (("denom", ("vfield", ("field", cfg, "denom"), "Native", "0")), ("amount", release))),))
             elif kind == ["Cw20"] and inner[2] == "Execute":
                 b = f.get("msg")
                 if b and b[0] == "vfield" and b[1][0] == "call" and b[1][1].endswith("to_json_binary"):
